@@ -4,6 +4,10 @@ EXTRACT = [{"group": "policy", "passes": ["validate"]}]
 FAMILIES = [
     {"name": "policy", "family": "policy", "group": "policy", "driver": "drv_policy",
      "n_quick": 1200, "n_thorough": 12000, "seeds_thorough": 2},
+    {"name": "userhist", "family": "userhist", "group": "policy", "driver": "drv_policy",
+     "n_quick": 500, "n_thorough": 6000, "seeds_thorough": 2},
+    {"name": "confine", "family": "confine", "group": "policy", "driver": "drv_policy",
+     "n_quick": 300, "n_thorough": 3000, "seeds_thorough": 2},
 ]
 RULE = ("policy: per scenario a fresh chain (2-3 pools, providers, a baseline of valid policies); one of the ten AMM admin "
         "messages with extreme fields (uint64/int64 near 2^63/2^64, 0, Uint up to 2^256-1, nil optional fields, negative/huge/"
